@@ -167,9 +167,12 @@ structure MInv (escBal : Nat) (reqs : Map ReqId Req) (activeI : FSet ReqId)
 abbrev InvM (s : State) : Prop :=
   MInv (balOf s.bank.bal s.cfg.escrow) s.reqs s.activeI s.earned s.ownerEarned s.owner
 
-/-- every request record names a bound provider (so a slash always finds its binding) -/
-def InvBound (s : State) : Prop :=
-  ∀ r q, Map.get s.reqs r = some q → ∃ x, Map.get s.ctxs r.ctx = some x ∧ (Map.get s.bindings (x.svc, q.prov)).isSome
+/-- every request record names a bound provider (so a slash always finds its binding and an
+    earning always finds its owner) -/
+def BoundInv (ctxs : Map CtxId Ctx) (reqs : Map ReqId Req) (bindings : Map (SvcName × Addr) Binding) : Prop :=
+  ∀ r q, Map.get reqs r = some q → ∃ x, Map.get ctxs r.ctx = some x ∧ (Map.get bindings (x.svc, q.prov)).isSome
+
+abbrev InvBound (s : State) : Prop := BoundInv s.ctxs s.reqs s.bindings
 
 /-- all of them -/
 structure Inv (s : State) : Prop where
@@ -177,6 +180,7 @@ structure Inv (s : State) : Prop where
   b : InvB s
   x : InvX s
   m : InvM s
+  bound : InvBound s
 
 /-- the quantities of the property statements, in terms of a state -/
 def ownedEarned (s : State) (o : Addr) : Nat := ownedSum s.owner s.earned o
